@@ -31,6 +31,7 @@ class Profile:
         self.allow_no_time = True
         self.failing_batches = True
         self.extra_field_vals = []
+        self.wild = False
         self.min_ops, self.max_ops = 5, 25
         self.probe_every = 1  # probe after every n-th mutating op
         self.max_rows = MAX_ROWS
@@ -160,6 +161,14 @@ def query_probes(rng, model, prof, via_choices=("db",)):
                     "time", "measurement", "tags.k", "fields.x", ["time", "tags.j"],
                     ["measurement", "fields.y", "tags.nokey"], ["fields.x"],
                 ])
+                if model.points and rng.random() < 0.4:
+                    # keys that really occur in the stored points, whatever they look like (dots, blanks, ...)
+                    mp = rng.choice(model.points)
+                    # (select() rejects a bare "tags." / "fields." by design: the empty key cannot be selected)
+                    own = [f"tags.{k}" for k in mp.tags if k != ""] + [f"fields.{k}" for k in mp.fields if k != ""]
+                    if own:
+                        ks = rng.sample(own, min(len(own), rng.choice([1, 2])))
+                        op["keys"] = ks[0] if len(ks) == 1 and rng.random() < 0.5 else ks
             ops.append(op)
     return ops
 
